@@ -50,10 +50,13 @@ def emit(prog):
         L += ["    while True:",
               '        FAULT("beh")',
               "        take Act(v + g)"]
-    L += ["behavior Alt():",
-          "    while True:",
-          '        FAULT("beh2")',
-          "        take Act(Range(4, 5))"]
+    for k, sub in enumerate(prog["subs"]):
+        # one behavior class per overriding scenario: an observed behavior names its origin
+        if any(p == "behavior" for _, specs in sub["ovr"] for p, _ in specs):
+            L += [f"behavior Alt{k}():",
+                  "    while True:",
+                  '        FAULT("beh2")',
+                  "        take Act(Range(4, 5))"]
     if prog["mon"]:
         L += ["monitor Mon():",
               "    while True:",
@@ -65,7 +68,7 @@ def emit(prog):
         if sub["fsetup"]:
             L.append(f'        FAULT("setup{k}")')
         for obj, specs in sub["ovr"]:
-            sp = ", ".join(f"with behavior Alt()" if p == "behavior" else f"with {p} {v}"
+            sp = ", ".join(f"with behavior Alt{k}()" if p == "behavior" else f"with {p} {v}"
                            for p, v in specs)
             # object 0 has random properties: only `ego` names its sampled version at run time
             L.append(f"        override {'ego' if obj == 0 else f'a{obj}'} {sp}")
@@ -154,7 +157,7 @@ def expected_value(prog, running, obj, prop):
                 continue
             for p, v in specs:
                 if p == prop:
-                    val, owner = ("Alt" if p == "behavior" else v), k
+                    val, owner = (f"Alt{k}" if p == "behavior" else v), k
     return val, owner
 
 
